@@ -14,6 +14,7 @@ import Proofs.C06.ScriptAddr
 import Proofs.C06.KeyTextConv
 import Proofs.C06.ThreeErr
 import Proofs.C06.Bip21
+import Proofs.C06.TwoErrSwitch
 /-!
 # C06 — text encodings and addresses round-trip and accept exactly what the specs accept
 
@@ -131,8 +132,8 @@ theorem substitution_refused_version_constant (pre a b : List Nat) (x x' : Nat) 
   Bech32.substitution_refused_none pre a b x x' h49 hx' hne hb r h1
 
 /-- T3 at the string level, two characters (explicit constant): changing two characters after the separator,
-    at most 1022 positions apart, gives a string the decoder refuses. (With `m` None and a changed version
-    character this is a three-term residue question and is NOT proved.) -/
+    at most 1022 positions apart, gives a string the decoder refuses. (With `m` None — constant read off a possibly
+    changed version character — see `two_substitutions_refused_version_constant` below.) -/
 theorem two_substitutions_refused (pre a mid b : List Nat) (x x' y y' m : Nat)
     (h49 : 49 ∉ a ++ x :: (mid ++ y :: b)) (hx' : x' ≠ 49) (hy' : y' ≠ 49)
     (hne : lowerC x ≠ lowerC x') (hw : mid.length < 1022) (r : List Nat × List Nat)
@@ -183,12 +184,60 @@ theorem three_substitutions_refused (pre a mid1 mid2 b : List Nat) (x x' y y' z 
     ∀ r', Bech32.decode (pre ++ 49 :: (a ++ x' :: (mid1 ++ y' :: (mid2 ++ z' :: b)))) (some m) ≠ .ok r' :=
   Bech32.three_substitutions_refused pre a mid1 mid2 b x x' y y' z z' m h49 hx' hy' hz' hne hw r h1
 
+/-- T3 (two substitutions ACROSS the two constants, value level): a value sequence whose checksum is one of the two
+    generated constants, changed in up to two positions (`v1 ≠ v1'` asked, `v2 = v2'` allowed) with at most 88
+    values after the first changed one, never has the OTHER constant as checksum: a bech32 codeword is not one or
+    two substitutions away from a bech32m codeword (BIP350's design goal for the constant `0x2bc830a3`), within
+    every 90-character string. Table: the 2759 residues x^b·d (0 ≤ b ≤ 88, 1 ≤ d ≤ 31) and the same residues xor
+    `BECH32_1_CONST xor BECH32_M_CONST` are 5518 pairwise different numbers (`decide +kernel`). The window is
+    not maximal: the first collision is x^192·19 + x^33·19. -/
+theorem two_substitutions_switch_detected (pre mid post : List Nat) (v1 v1' v2 v2' m m' : Nat)
+    (hmid : ∀ x ∈ mid, x < 2 ^ 30) (hpost : ∀ x ∈ post, x < 2 ^ 30)
+    (h1 : v1 < 32) (h1' : v1' < 32) (h2 : v2 < 32) (h2' : v2' < 32) (hne : v1 ≠ v1')
+    (hw : mid.length + 1 + post.length ≤ 88)
+    (hm : (m = BECH32_1_CONST ∧ m' = BECH32_M_CONST) ∨ (m = BECH32_M_CONST ∧ m' = BECH32_1_CONST))
+    (h : Bech32.polymod (pre ++ v1 :: (mid ++ v2 :: post)) = m) :
+    Bech32.polymod (pre ++ v1' :: (mid ++ v2' :: post)) ≠ m' := by
+  intro h'
+  apply two_substitutions_switch pre mid post v1 v1' v2 v2' hmid hpost h1 h1' h2 h2' hne hw
+  rw [h, h']
+  rcases hm with ⟨rfl, rfl⟩ | ⟨rfl, rfl⟩
+  · rfl
+  · exact Nat.xor_comm _ _
+
+/-- T3 at the string level, two characters, constant read off the witness version (`bech32.decode(s)` with `m`
+    None, as `b32.witness_from_address` calls it): changing up to two characters after the separator of an accepted
+    string — the VERSION character included, where the expected constant switches between bech32 and bech32m —
+    gives a string the decoder refuses, when at most 88 characters follow the first changed one (every string of at
+    most 90 characters). `y' = y` is allowed (then this is `substitution_refused_version_constant`). -/
+theorem two_substitutions_refused_version_constant (pre a mid b : List Nat) (x x' y y' : Nat)
+    (h49 : 49 ∉ a ++ x :: (mid ++ y :: b)) (hx' : x' ≠ 49) (hy' : y' ≠ 49)
+    (hne : lowerC x ≠ lowerC x') (hw : mid.length + 1 + b.length ≤ 88) (r : List Nat × List Nat)
+    (h1 : Bech32.decode (pre ++ 49 :: (a ++ x :: (mid ++ y :: b))) none = .ok r) :
+    ∀ r', Bech32.decode (pre ++ 49 :: (a ++ x' :: (mid ++ y' :: b))) none ≠ .ok r' :=
+  Bech32.two_substitutions_refused_none pre a mid b x x' y y' h49 hx' hy' hne hw r h1
+
+-- non-vacuity: BIP173's P2WPKH example is accepted with the constant read off its version 0; with the version
+-- character q→p (the constant becomes bech32m) and the last character 4→5 it is refused.
+example : Bech32.decode ("bc1qw508d6qejxtdg4y5r3zarvary0c5xw7kv8f3t4".toList.map Char.toNat) none =
+    .ok ([98, 99], Bech32.exData) := by decide +kernel
+example : ∀ r', Bech32.decode ("bc1pw508d6qejxtdg4y5r3zarvary0c5xw7kv8f3t5".toList.map Char.toNat) none ≠ .ok r' :=
+  two_substitutions_refused_version_constant [98, 99] []
+    ("w508d6qejxtdg4y5r3zarvary0c5xw7kv8f3t".toList.map Char.toNat) [] 113 112 52 53
+    (by decide +kernel) (by decide) (by decide) (by decide) (by decide +kernel) ([98, 99], Bech32.exData)
+    (by decide +kernel)
+-- the value-level hypotheses are satisfiable: "a12uel5l" (bech32, constant 1) with two values changed
+example : Bech32.polymod (hrpExpand [97] ++ [11, 28, 25, 31, 20, 30]) ≠ BECH32_M_CONST :=
+  two_substitutions_switch_detected (hrpExpand [97]) [28, 25, 31, 20] [] 10 11 31 30 _ _
+    (by decide) (by decide) (by decide) (by decide) (by decide) (by decide) (by decide) (by decide)
+    (Or.inl ⟨rfl, rfl⟩) (by decide)
+
 /- NOT proved (`bch_four_errors_partial` would be its name): BIP173's full guarantee — any error pattern touching
    FOUR characters of a string of at most 90 characters is detected. One, two (window 1022) and three (window 88)
    substitutions and adjacent transpositions are theorems above; four needs the BCH bound over GF(1024) (not in
    Mathlib) or the disjointness of about 3.7·10⁶ pair sums x^b·d1 + x^c·d2 from as many x^e·d3 + d4, out of reach
-   of `decide`. Also not proved: three substitutions with the constant read off a CHANGED version character
-   (`m` None), and substitutions in the human-readable part or of the separator. -/
+   of `decide`. Also not proved: THREE substitutions with the constant read off a CHANGED version character
+   (`m` None; one and two are theorems above), and substitutions in the human-readable part or of the separator. -/
 
 -- non-vacuity: a real checksum ("a12uel5l" of BIP173: hrp "a", no data), and what the theorems say about it
 example : Bech32.polymod (hrpExpand [97] ++ [10, 28, 25, 31, 20, 31]) = 1 := by decide
